@@ -579,7 +579,14 @@ def cases(tier):
         k = mk_kernel(f, i)
         cs.append(R.Case(f.name, [k], judge_of(f, k)))
     cs += canaries()
+    if not _NO_MEM:
+        import sys
+        from rules import c20_mem
+        cs += c20_mem.cases(tier, sys.modules[__name__])
     return cs
+
+
+_NO_MEM = False
 
 
 def canaries():
@@ -608,6 +615,6 @@ ASSUMPTIONS = ['UB classes UBSan does not instrument are out of scope (strict al
                'input boxes are the documented domains written as intervals; where the documentation is silent the box is a conservative sub-domain and the claim is limited to it']
 TRUSTED = ['clang 14 UBSan instrumentation (which operations get a check)', 'LLVM -O2 (removal of redundant checks)', 'tools/irtool.cc', 'laneflow interval domain and concrete term evaluator']
 # floors: one pooled count of decided obligations (the surviving sanitizer checks per kind move with every refactor of the library)
-FLOOR_GROUP = lambda rule: 'obligations'
+FLOOR_GROUP = lambda rule: 'memory' if rule == 'memory' else 'obligations'
 FLOOR_RATIO = 0.9
 LEVEL = 'other'
